@@ -14,6 +14,7 @@ import (
 	"strconv"
 	"strings"
 	"sync"
+	"syscall"
 	"time"
 
 	"github.com/whawty/auth/sasl"
@@ -54,6 +55,7 @@ type c20Case struct {
 	Wcap    int
 	Rcap    int
 	Eintr   int
+	WDelay  int // ms to sleep before the first socket write (the process being descheduled)
 	Timeout int // seconds, as configured (default 3)
 	Timing  bool
 }
@@ -189,6 +191,10 @@ func c20Cases(rng *rand.Rand, encoderOnly bool) []c20Case {
 	add("early-close", c20Case{User: []byte("alice"), Pw: fill(256, false), Script: c20Script{Name: "close-before-read", Read: "none", CloseEarly: "before-read"}})
 	add("early-close", c20Case{User: fill(4096, false), Pw: fill(4096, false), Script: c20Script{Name: "close-before-read-long", Read: "none", CloseEarly: "before-read"}})
 	add("early-close", c20Case{User: []byte("alice"), Pw: []byte("secret"), Script: c20Script{Name: "close-after-read", CloseEarly: "after-read"}})
+	// the server has already closed when the module (descheduled for a moment) starts to write
+	add("early-close-before-write", c20Case{User: []byte("alice"), Pw: []byte("secret"), WDelay: 300, Script: c20Script{Name: "close-before-read", Read: "none", CloseEarly: "before-read"}})
+	add("early-close-before-write", c20Case{User: fill(256, true), Pw: fill(256, true), WDelay: 300, Opts: []string{"debug", "try_first_pass"}, Script: c20Script{Name: "close-before-read", Read: "none", CloseEarly: "before-read"}})
+	add("early-close-mid-request", c20Case{User: fill(200, false), Pw: fill(200, false), Wcap: 3, WDelay: 200, Script: c20Script{Name: "read-half-then-close", Read: "half", CloseEarly: "after-read"}})
 	add("early-close", c20Case{User: []byte("alice"), Pw: []byte("secret"), Script: c20Script{Name: "reply-ok-without-reading-request", Read: "none", Reply: full}})
 	add("early-close", c20Case{User: []byte("alice"), Pw: []byte("secret"), Script: c20Script{Name: "read-half-then-reply-no", Read: "half", Reply: noReply.Reply}})
 	// E: unreachable
@@ -303,6 +309,19 @@ func c20(encoderOnly bool) {
 	os.RemoveAll(dir)                         //nolint:errcheck
 	os.MkdirAll(filepath.Join(dir, "s"), 0700) //nolint:errcheck
 	cases := c20Cases(rng, encoderOnly)
+	valgrind := os.Getenv("VERIF_PAMH_VALGRIND") == "1"
+	if valgrind {
+		// memcheck pass: uninstrumented build, no timing-dependent cases
+		pamh = filepath.Join(os.Getenv("VERIF_BIN"), "pamh-plain")
+		R.Stage = "memcheck"
+		var keep []c20Case
+		for _, c := range cases {
+			if !c.Timing && c.Script.End != "hold" && c.Script.DelayMs == 0 && len(c.User) <= 300 && len(c.Pw) <= 300 {
+				keep = append(keep, c)
+			}
+		}
+		cases = keep
+	}
 	obs := map[string]*c20Obs{}
 	var omu sync.Mutex
 	var listeners []net.Listener
@@ -374,10 +393,13 @@ func c20(encoderOnly bool) {
 			if c.User != nil {
 				u = hex.EncodeToString(c.User)
 			}
-			fmt.Fprintf(&sb, "%s\t%s\t%s\t%s\t%s\t%s\t%d\t%d\t%d\n", c.ID, u, hex.EncodeToString(c.Pw), c.PwSrc, strings.Join(c.Opts, ","), sockOf[c.ID], c.Wcap, c.Rcap, c.Eintr)
+			fmt.Fprintf(&sb, "%s\t%s\t%s\t%s\t%s\t%s\t%d\t%d\t%d\t%d\n", c.ID, u, hex.EncodeToString(c.Pw), c.PwSrc, strings.Join(c.Opts, ","), sockOf[c.ID], c.Wcap, c.Rcap, c.Eintr, c.WDelay)
 		}
 		os.WriteFile(f, []byte(sb.String()), 0600) //nolint:errcheck
 		cmd := exec.Command("timeout", "-s", "KILL", "120", pamh, f)
+		if valgrind {
+			cmd = exec.Command("timeout", "-s", "KILL", "900", "valgrind", "-q", "--error-exitcode=97", "--leak-check=full", "--errors-for-leak-kinds=definite,indirect", "--track-origins=yes", pamh, f)
+		}
 		cmd.Env = append(os.Environ(), "ASAN_OPTIONS=abort_on_error=0:detect_leaks=1:exitcode=99", "UBSAN_OPTIONS=print_stacktrace=1:halt_on_error=1:exitcode=98")
 		var stderr bytes.Buffer
 		cmd.Stderr = &stderr
@@ -416,6 +438,9 @@ func c20(encoderOnly bool) {
 			}
 			died[last] = msg
 			diedCode[last] = st.ExitCode()
+			if ws, ok := st.Sys().(syscall.WaitStatus); ok && ws.Signaled() {
+				diedCode[last] = -int(ws.Signal())
+			}
 			after := false
 			for _, c := range b {
 				if after {
@@ -459,14 +484,20 @@ func c20(encoderOnly bool) {
 				sig = pfx + ":asan:" + c20AsanKind(msg)
 			case strings.Contains(msg, "runtime error"):
 				sig = pfx + ":ubsan"
-			case diedCode[c.ID] == 137 || diedCode[c.ID] == -1:
+			case diedCode[c.ID] == 97:
+				sig = pfx + ":memcheck"
+			case diedCode[c.ID] == 137 || diedCode[c.ID] == -int(syscall.SIGKILL):
 				sig = pfx + ":no-return-within-watchdog"
+			case diedCode[c.ID] == -int(syscall.SIGPIPE):
+				sig = pfx + ":process-killed-by-SIGPIPE"
+			case diedCode[c.ID] < 0:
+				sig = fmt.Sprintf("%s:process-killed-by-signal-%d", pfx, -diedCode[c.ID])
 			}
 			wit["stderr"] = msg
 			if strings.HasSuffix(sig, ":no-return-within-watchdog") {
 				R.Inconcl("pam process killed by the 120 s watchdog in case " + c.ID)
 			}
-			R.Violate(sig+":"+c.Class, "the module's process died while executing this case: "+strings.SplitN(msg, "\n", 3)[0], c.ID, wit)
+			R.Violate(sig+":"+c.Class, fmt.Sprintf("the module's process died (exit code %d) while executing this case: %s", diedCode[c.ID], strings.SplitN(msg, "\n", 3)[0]), c.ID, wit)
 			continue
 		}
 		if o == nil || !o.Finished {
